@@ -3,6 +3,7 @@ package main
 // C09 Header constraints gate a route in every form it can be reached.
 
 import (
+	"fmt"
 	"go/token"
 	"go/types"
 	"strings"
@@ -166,6 +167,61 @@ func checkC09(c *Check) {
 		})
 		if allOK && nret > 0 {
 			c.OK(key, p.FuncPos(fn), "true verdict ⇒ matchHeader(header) on every return", numInstrs(fn))
+		}
+	}
+	// leaf matchers that take no header (the gate moved to the callers): every call is made behind the same
+	// leaf's gate, asked about the caller's own header parameter
+	for _, fn := range headerlessLeafMatchers(p) {
+		key := p.FuncKey(fn) + ":verdict"
+		ncalls, bad := 0, ""
+		for _, caller := range p.Funcs() {
+			if caller.Pkg != p.SSA["route"] {
+				continue
+			}
+			for _, cs := range callsIn(caller, func(n string, cm *ssa.CallCommon) bool {
+				if cm.IsInvoke() {
+					return cm.Method.Name() == fn.Name() && namedName(derefT(cm.Value.Type())) == "Leaf"
+				}
+				return cm.StaticCallee() == fn
+			}) {
+				ncalls++
+				cm := cs.Common()
+				recv := cm.Value
+				if !cm.IsInvoke() {
+					recv = cm.Args[0]
+				}
+				hi := headerParam(caller)
+				if hi < 0 {
+					bad = p.Pos(cs.Pos()) + ": the caller has no header to ask the gate about"
+					continue
+				}
+				same := func(v ssa.Value) bool { return leafRoot(v) == leafRoot(recv) }
+				gate := func(v ssa.Value) bool {
+					cl := asCall(v)
+					if cl == nil || len(callArgs(&cl.Call)) < 2 {
+						return false
+					}
+					n := callName(&cl.Call)
+					if !strings.HasSuffix(n, ").matchHeader") {
+						return false
+					}
+					as := callArgs(&cl.Call)
+					return same(as[0]) && vParam(caller, hi)(as[1])
+				}
+				passed := edgesWhere(caller, cBool(gate), true)
+				if ok, path := guardedBy(caller, passed, isInstr(cs)); !ok || len(passed) == 0 {
+					bad = p.Pos(cs.Pos()) + ": the matcher is asked although the leaf's header gate has not accepted this request's headers (" + path + ")"
+				}
+			}
+		}
+		switch {
+		case ncalls == 0:
+			// never called: nothing can be matched through it
+			c.OK(key, p.FuncPos(fn), "no call site", 1)
+		case bad != "":
+			c.Bad(key, p.FuncPos(fn), "the leaf matcher takes no headers and a call site does not check the leaf's header constraints first: "+bad)
+		default:
+			c.OK(key, p.FuncPos(fn), fmt.Sprintf("takes no headers; each of its %d call sites lies behind matchHeader(header) of the same leaf", ncalls), numInstrs(fn))
 		}
 	}
 
@@ -773,4 +829,55 @@ func idxElemType(fn *ssa.Function, _ VM) types.Type {
 		}
 	}
 	return types.Typ[types.Invalid]
+}
+
+
+// headerlessLeafMatchers: the matching methods of Leaf implementations (match, matchAll) that take no http.Header.
+func headerlessLeafMatchers(p *Prog) []*ssa.Function {
+	leafN := p.Named("route", "Leaf")
+	if leafN == nil {
+		return nil
+	}
+	iface := leafN.Underlying().(*types.Interface)
+	var out []*ssa.Function
+	for _, fn := range p.Funcs() {
+		if fn.Parent() != nil || fn.Signature.Recv() == nil || fn.Pkg != p.SSA["route"] || len(fn.Blocks) == 0 {
+			continue
+		}
+		if fn.Name() != "match" && fn.Name() != "matchAll" {
+			continue
+		}
+		rt := fn.Signature.Recv().Type()
+		if !types.Implements(rt, iface) && !types.Implements(types.NewPointer(derefT(rt)), iface) {
+			continue
+		}
+		res := fn.Signature.Results()
+		if res.Len() != 1 || !types.Identical(res.At(0).Type(), types.Typ[types.Bool]) || headerParam(fn) >= 0 {
+			continue
+		}
+		out = append(out, fn)
+	}
+	return out
+}
+
+// leafRoot strips type assertions (leaf.(*matchAllLeaf), comma-ok or not) and interface conversions.
+func leafRoot(v ssa.Value) ssa.Value {
+	for i := 0; i < 6; i++ {
+		v = strip(v)
+		switch x := v.(type) {
+		case *ssa.TypeAssert:
+			v = x.X
+			continue
+		case *ssa.Extract:
+			if ta, ok := x.Tuple.(*ssa.TypeAssert); ok && x.Index == 0 {
+				v = ta.X
+				continue
+			}
+		case *ssa.MakeInterface:
+			v = x.X
+			continue
+		}
+		break
+	}
+	return strip(v)
 }
